@@ -724,7 +724,12 @@ async fn gen_insert(env: &Env, s: &Session, rng: &mut Rng, g: &mut Gen, ops: &mu
     let fee_asset = if rng.chance(75) { 0 } else { rng.below(N_ASSETS as u64) as usize };
     let scale = (s.bals[a][0].max(s.bals[a][1]) / 3).max(4) as u64;
     let xfer = if kind == 0 {
-        Some((rng.below(N_ASSETS as u64) as usize, rng.below(scale + 1) as u128))
+        let xa = match rng.below(100) {
+            0..=49 => 0,
+            50..=84 => 1,
+            _ => 2,
+        };
+        Some((xa, rng.below(scale + 1) as u128))
     } else {
         None
     };
@@ -743,6 +748,7 @@ async fn gen_insert(env: &Env, s: &Session, rng: &mut Rng, g: &mut Gen, ops: &mu
         _ => {
             for i in 0..N_ASSETS {
                 costs[i] = match rng.below(10) {
+                    _ if i == 2 && s.bals[a][2] == 0 && rng.chance(70) => 0,
                     0..=3 => 0,
                     4..=7 => rng.below(scale + 1) as u128,
                     8 => s.bals[a][i],
@@ -859,8 +865,52 @@ async fn gen_step(env: &Env, s: &Session, rng: &mut Rng, g: &mut Gen) -> Vec<Str
     let mut ops = Vec::new();
     let c = rng.below(100);
     let (pend, park) = pooled(s).await;
-    if c < 56 {
+    if c < 52 {
         gen_insert(env, s, rng, g, &mut ops).await;
+    } else if c < 56 && s.pmax >= 16 {
+        // flood one account's parked queue with gapped nonces (per-account limit), or fill the gap
+        // below a parked run (promotion cascade)
+        let a = rng.below(N_ACCTS as u64) as usize;
+        let cur = s.nonces[a];
+        let pn = s
+            .mempool
+            .pending_nonce(&env.keys[a].address_bytes())
+            .await
+            .unwrap_or(cur)
+            .max(cur);
+        let mine: Vec<u32> = park.iter().filter(|k| s.txs[**k].acct == a).map(|k| s.txs[*k].nonce).collect();
+        if !mine.is_empty() && rng.chance(40) {
+            // fill the gap: every nonce from the ready end up to the first parked one
+            let first = *mine.iter().min().unwrap();
+            let mut k = s.txs.len();
+            for nonce in pn..first.min(pn + 4) {
+                ops.push(format!("mk t{k} {a} {nonce} 0 0 0 0"));
+                g.next_at += 1;
+                ops.push(format!(
+                    "insert t{k} {cur} {} {} {}",
+                    fmt_vec3(&gen_vec(rng, s.bals[a], [false, true, true])),
+                    fmt_vec3(&[Some(rng.below(3) as u128), None, None]),
+                    g.next_at
+                ));
+                k += 1;
+            }
+        } else {
+            let n = rng.range(3, 17);
+            let start = pn + rng.range(1, 3) as u32;
+            let mut k = s.txs.len();
+            for j in 0..n {
+                let nonce = start + j as u32;
+                ops.push(format!("mk t{k} {a} {nonce} {} 0 - 0", rng.range(1, 3)));
+                g.next_at += 1;
+                ops.push(format!(
+                    "insert t{k} {cur} {} {} {}",
+                    fmt_vec3(&gen_vec(rng, s.bals[a], [false, true, true])),
+                    fmt_vec3(&[Some(rng.below(4) as u128), None, None]),
+                    g.next_at
+                ));
+                k += 1;
+            }
+        }
     } else if c < 64 {
         // remove_tx_invalid
         let all: Vec<usize> = pend.iter().chain(park.iter()).copied().collect();
